@@ -112,7 +112,8 @@ prop("C07", quick={"runs": 16000}, thorough={"runs": 100000000, "budget_s": 600}
      "map with per-entry expiry intervals; Walk callbacks and Dump writers fail at chosen positions and the sequence goes on. Non-trivial: >= 2 operations; distinct = distinct (scenario, schedule signature).",
      rules=["C07.<op>: Read/Load/Delete/Len/Walk results equal the reference map's; ExpireAll expires everything incl. never-expiring; "
             "expired reads carry value and expiry instant", "C07.walkErr / dumpErr: a failing callback / writer stops the walk, its error and the count of completed callbacks are returned", "C07.walkDel: a Walk callback may delete the entry it is shown (re-entrant use), the walk still visits every entry once",
-            "C07.STUCK an operation of the sequence never returns (scheduler state, not a timeout)", "C07.PANIC an operation panicked"],
+            "C07.STUCK an operation of the sequence never returns (scheduler state, not a timeout)", "C07.PANIC an operation panicked",
+            "C07.retained an ErrExpired handed out earlier still carries the value it was created for at the end of the run"],
      probes=["read:nil", "read:notfound", "read:expired", "delete:nil", "delete:notfound", "expireAll", "deleteAll", "walk", "walkErr", "walkDel", "dumpErr", "len", "load", "store"])
 prop("C10", quick={"runs": 16000}, thorough={"runs": 100000000, "budget_s": 600},
      rule=BE_RULE + "Root-driven (no concurrency): 1-6 writes (Write, or Store which has no context) with config TTL {default, unlimited, 1ns..10y, negative -2ns..-1y}, context TTL {none, 0, +-1ns..+-10y}, "
@@ -169,7 +170,7 @@ prop("C13", quick={"runs": 6000}, thorough={"runs": 100000000, "budget_s": 600},
      probes=["relayed_through_second_hop"])
 prop("C14", quick={"runs": 6000}, thorough={"runs": 100000000, "budget_s": 600},
      rule=TR_RULE + "Exporter and importer HTTPTransfer instances with 0-4 named caches each (partly overlapping names, in 30 % names that need URL escaping; loggers of every shape in 40 %); Import runs against Export() through an "
-     "in-process http.RoundTripper; a third of the runs inject round-trip errors, 5xx, truncated / failing bodies or a rewritten typesHash. Every 50th run is the "
+     "in-process http.RoundTripper; a third of the runs inject round-trip errors, 5xx, truncated / failing bodies, a rewritten typesHash, or a slow link (4 simulated seconds per read of the body: nothing may be lost). Every 50th run is the "
      "auxiliary (non-simulation) hash clause: 4 fresh OS processes register permutations / multiplicities of a type pool (struct, pointer-registered, slice, map, basic kinds, "
      "two same-named types of different packages) and print GobTypesHash(); every 1000th run a fresh process with types hash 0 on both sides transfers builtin-valued caches.",
      rules=["C14.R1 imported caches equal the exporter's of the same name; every cache is requested", "C14.R2 exporter unchanged", "C14.R3 nothing imported on hash mismatch / unknown name / non-200",
@@ -184,10 +185,11 @@ prop("C15", quick={"runs": 9000}, thorough={"runs": 100000000, "budget_s": 600},
      rules=["C15.R1 labelled keys absent after nil", "C15.R2 unlabelled keys untouched", "C15.R3 count = entries really removed", "C15.R4 failure returned, no panic", "C15.R5 retry removes every labelled key"],
      probes=["invalidate_ok", "invalidate_with_deleter_failure", "retry_after_failure", "retry_label_by_label", "concurrent_invalidate", "sweep_after_concurrent_failure", "sweep_judged_rewritten_and_relabelled_key"])
 prop("C17", quick={"runs": 12000}, thorough={"runs": 100000000, "budget_s": 600},
-     rule="1-8 client tasks call Invalidate 1-4 times each with sleeps around SkipInterval (-1ns, exactly, +1ns) and a context that is live, already cancelled, past its deadline, or cancelled by the first callback; 0-5 callbacks yield / sleep simulated time while the "
+     rule="1-8 client tasks call Invalidate 1-4 times each (SkipInterval from the 15 s default and 1 ns up to 100 years and MaxInt64) with sleeps around SkipInterval (-1ns, exactly, +1ns) and a context that is live, already cancelled, past its deadline, or cancelled by the first callback; 0-5 callbacks yield / sleep simulated time while the "
      "Invalidator's mutex is held (cooperative lock table). Non-trivial: at least two calls; distinct = distinct (scenario, schedule signature).",
      rules=["C17.R1 accepted calls never overlap", "C17.R2 consecutive accepted calls start running callbacks >= SkipInterval apart", "C17.R3 every callback exactly once in order, synchronously",
-            "C17.R4 rejected: no callback, ErrAlreadyInvalidated", "C17.R5 no callbacks: ErrNothingToInvalidate"],
+            "C17.R4 rejected: no callback, ErrAlreadyInvalidated", "C17.R5 no callbacks: ErrNothingToInvalidate",
+            "C17.R6 a rejection has a reason: an accepted call started at most SkipInterval before the rejected one was invoked"],
      probes=["rejected_call", "two_accepted_calls", "overlapping_invalidate_calls"])
 prop("C16", quick={"runs": 12000}, thorough={"runs": 100000000, "budget_s": 900}, race=True,
      rule="Programs: every unordered pair of backend operations (write, born-expired write, read, delete, ExpireAll, DeleteAll, Len, Walk, Load, Store, "
